@@ -35,10 +35,24 @@ class Lock:
         self.f.close()
 
 
-def sh(cmd, cwd=None, env=None, timeout=None, stdin=None):
+COQ_MEM_BYTES = int(os.environ.get("VERIF_COQ_MEM_GB", "24")) << 30
+
+
+def _limit_mem():
+    """preexec for coqc/make/coqchk: a runaway normalisation dies at the address-space
+    limit instead of pushing the machine into OOM (not applied to Go: its runtime
+    reserves large virtual ranges)."""
+    import resource
+    try:
+        resource.setrlimit(resource.RLIMIT_AS, (COQ_MEM_BYTES, COQ_MEM_BYTES))
+    except (ValueError, OSError):
+        pass
+
+
+def sh(cmd, cwd=None, env=None, timeout=None, stdin=None, limit_mem=False):
     p = subprocess.run(cmd, cwd=cwd, env=env, timeout=timeout, input=stdin,
                        stdout=subprocess.PIPE, stderr=subprocess.STDOUT, text=True,
-                       errors="replace")
+                       errors="replace", preexec_fn=_limit_mem if limit_mem else None)
     return p.returncode, p.stdout
 
 
@@ -121,7 +135,7 @@ def coq_make(targets, timeout=3000, clean=False):
                 return False, log
         if clean:
             sh(["make", "clean"], cwd=COQ)
-        rc, log = sh(["make", "-j16", "-k"] + targets, cwd=COQ, timeout=timeout)
+        rc, log = sh(["make", "-j16", "-k"] + targets, cwd=COQ, timeout=timeout, limit_mem=True)
     return rc == 0, log
 
 
@@ -135,7 +149,7 @@ def check_properties_file(pid):
     coq_make) so that the Print Assumptions output is captured on every run."""
     vf = os.path.join(COQ, "Properties", pid + ".v")
     with Lock("coq.lock"):
-        rc, log = sh(["coqc", "-Q", ".", "Apko", "-w", "-notation-overridden", vf], cwd=COQ, timeout=1800)
+        rc, log = sh(["coqc", "-Q", ".", "Apko", "-w", "-notation-overridden", vf], cwd=COQ, timeout=1800, limit_mem=True)
     names = theorem_names(vf)
     axioms = {}
     # Print Assumptions output: "Closed under the global context" or "Axioms:\n name : type ..."
@@ -226,7 +240,8 @@ def run_cases_dir(cdir, timeout=1800, jobs=16):
         while pending and len(running) < jobs:
             f = pending.pop(0)
             p = subprocess.Popen(["coqc", "-Q", COQ, "Apko", "-w", "-notation-overridden", f], cwd=cdir,
-                                 stdout=subprocess.PIPE, stderr=subprocess.STDOUT, text=True, errors="replace")
+                                 stdout=subprocess.PIPE, stderr=subprocess.STDOUT, text=True, errors="replace",
+                                 preexec_fn=_limit_mem)
             running.append((p, f))
         p, f = running.pop(0)
         try:
@@ -453,7 +468,7 @@ def main_check(prop, argv):
     coqchk_log = None
     if tier == "thorough" and ok and pok and os.environ.get("VERIF_NO_COQCHK") != "1":
         with Lock("coq.lock"):
-            rc, coqchk_log = sh(["coqchk", "-silent", "-o", "-Q", ".", "Apko", "Apko.Properties." + pid], cwd=COQ, timeout=3000)
+            rc, coqchk_log = sh(["coqchk", "-silent", "-o", "-Q", ".", "Apko", "Apko.Properties." + pid], cwd=COQ, timeout=3000, limit_mem=True)
         if rc != 0:
             broken.append(("coqchk", coqchk_log[-3000:]))
 
@@ -519,6 +534,7 @@ def main_check(prop, argv):
             "also_failing": [(rr["stage"], ii, tt) for rr, ii, tt in new_viol[1:20]],
             "no_longer_checks": [b[0] for b in broken]})
         out_lines.append("VIOLATION property=%s replay=%s" % (pid, rp))
+        getattr(prop, "post_replay", lambda _rp: None)(rp)  # optional per-property hook (C17: shrink the failing sequence)
         rc = 1
     elif broken:
         rp = write_replay(pid, "broken", {
